@@ -97,7 +97,7 @@ TrReset ==
   /\ rec' = [k \in Keys |-> Dead] /\ ix' = [k \in Keys |-> 0] /\ held' = [k \in Keys |-> {}]
   /\ lock' = [x \in Idx |-> ""]
   /\ pc' = [p \in Procs |-> "idle"] /\ req' = [p \in Procs |-> NoReq]
-  /\ cand' = [p \in Procs |-> {}] /\ walk' = [p \in Procs |-> <<>>] /\ res' = [p \in Procs |-> <<>>]
+  /\ cand' = [p \in Procs |-> {}] /\ walk' = [p \in Procs |-> {}] /\ res' = [p \in Procs |-> <<>>]
   /\ todo' = [p \in Procs |-> <<>>] /\ out' = [p \in Procs |-> <<>>]
   /\ owner' = [k \in Keys |-> ""] /\ alive' = {} /\ bad' = {} /\ used' = {} /\ nops' = 0
   /\ l' = l + 1 /\ Mark(l + 1) /\ h' = Trace[l].h
